@@ -86,7 +86,7 @@ def out {η : Type} (H : List Nat → η) (kind : Kind) (S : State) (op : Op) : 
   match op with
   | .setBit _ _ | .clearBit _ _ | .setRow _ _ | .clearRow _
   | .setValue _ _ _ | .clearValue _ _ _ => .w (.changed (S' != S))
-  | .bulkImport _ _ | .importValue _ _ _ | .importRoaring _ _ | .snapshot | .invalidateChecksums =>
+  | .bulkImport _ _ | .importValue _ _ _ | .importRoaring _ _ | .snapshot | .reopen | .invalidateChecksums =>
     .w .ok
   | .row r => .cols (rowCols S r)
   | .bit r c => .bool (has (pos r c) S)
